@@ -50,6 +50,8 @@ func runC15(c *core.Ctx) {
 	c.RuleDoc("R15.5", "the records of one multi-record update are written on one transaction")
 	c.RuleDoc("R15.6", "plain map fields of mutex-owning structs are accessed only with the mutex held")
 	c.RuleDoc("R15.13", "records of the in-memory store are immutable once stored")
+	c.RuleDoc("R15.14", "a handle mutates the content blob it loaded, never a view of it taken outside the blob's critical section")
+	c.RuleDoc("R15.15", "a callback of a concurrent map's Range writes no slice element at an index the dominating guards do not bound by the slice's length")
 	c.RuleDoc("R15.12", "no method of the slice-backed blob returns with its mutex held (= R19.13)")
 	c.RuleDoc("R15.11", "the amount a handle grows its content by is read in the critical section that grows (known finding)")
 	c.RuleDoc("R15.8", "no call that can take another lock while a blob's mutex is held (= R19.4)")
@@ -72,6 +74,8 @@ func runC15(c *core.Ctx) {
 		r15MapsUnderMutex(c, p, "mem", "keyvalue", "tar", "mount", "cache", "internal/pathlock")
 		r15StatelessFS(c, p)
 		r15RecordsImmutable(c, p)
+		r15MutateTheSharedBlob(c, p)
+		r15RangeCallbacksAppend(c, p, "mem", "mount")
 		if p.Target == load.Linux {
 			r15GrowFromStaleLength(c, p)
 		}
@@ -104,6 +108,8 @@ func runC15(c *core.Ctx) {
 	c.Floor("R15.10", 1)
 	c.Floor("R15.12", 4)
 	c.Floor("R15.13", 1)
+	c.Floor("R15.14", 4)
+	c.Floor("R15.15", 3)
 }
 
 func r15Guard(c *core.Ctx, p *load.Program, g guardSpec) {
@@ -813,4 +819,128 @@ func r15RecordsImmutable(c *core.Ctx, p *load.Program) {
 	default:
 		c.OK("R15.13", key, p.Pos(recT.Obj().Pos()), "every field store targets a record allocated in the same function")
 	}
+}
+
+// r15MutateTheSharedBlob (R15.14): in package keyvalue, the blob handed to blob.Set / blob.Grow / blob.Truncate is the
+// content the handle loaded, not the result of a View or Slice of it. A view captures the backing array at the moment
+// it is taken, outside the critical section of the mutation that follows: when another handle grows the content in
+// between (append reallocates), the write lands in the abandoned array — it reports success and is lost, without a
+// data race.
+func r15MutateTheSharedBlob(c *core.Ctx, p *load.Program) {
+	isWindow := func(v ssa.Value) bool {
+		cl, ok := v.(*ssa.Call)
+		if !ok {
+			return false
+		}
+		if ssax.CalleeIs(cl, mod+"/keyvalue/blob", "View") || ssax.CalleeIs(cl, mod+"/keyvalue/blob", "Slice") {
+			return true
+		}
+		if m := ssax.InvokeMethod(cl); m != nil && (m.Name() == "View" || m.Name() == "Slice") {
+			return true
+		}
+		if callee := ssax.StaticCallee(cl); callee != nil && callee.Signature.Recv() != nil && (callee.Name() == "View" || callee.Name() == "Slice") {
+			return true
+		}
+		return false
+	}
+	for _, fn := range pkgFuncs(p, "keyvalue") {
+		ord := ordinals{}
+		ssax.Instrs(fn, func(ins ssa.Instruction) {
+			cl, ok := ins.(*ssa.Call)
+			if !ok || len(cl.Call.Args) == 0 {
+				return
+			}
+			op := ""
+			for _, n := range []string{"Set", "Grow", "Truncate"} {
+				if ssax.CalleeIs(cl, mod+"/keyvalue/blob", n) {
+					op = n
+				}
+			}
+			if op == "" {
+				return
+			}
+			key := fname(fn) + "|" + ord.next("blob."+op)
+			c.Check(!originIs(cl.Call.Args[0], isWindow), "R15.14", key, p.Pos(cl.Pos()), "the mutated blob is not a view or slice of the content",
+				fmt.Sprintf("%s applies blob.%s to a View/Slice of the content instead of the content blob itself: the view fixes the backing array before the mutation's critical section begins, so when another handle grows the file in between (append reallocates) the bytes land in the abandoned array — the call reports success and the data is lost", fname(fn), op))
+		})
+	}
+}
+
+// r15RangeCallbacksAppend (R15.15): the callback of a sync.Map Range collects by append (or into a map); it stores no
+// slice element at an index unless the dominating guards bound the index by the slice's length. The map is read
+// without the store mutex (lazy directory listings), so a slice sized by an earlier pass over the same map is too
+// short when an entry was added in between (index out of range panic) and holds "" names when one was removed.
+func r15RangeCallbacksAppend(c *core.Ctx, p *load.Program, rels ...string) {
+	for _, rel := range rels {
+		for _, fn := range pkgFuncs(p, rel) {
+			ord := ordinals{}
+			ssax.Instrs(fn, func(ins ssa.Instruction) {
+				cl, ok := ins.(*ssa.Call)
+				if !ok || !ssax.CalleeIs(cl, "sync", "(*Map).Range") || len(cl.Call.Args) < 2 {
+					return
+				}
+				key := fname(fn) + "|" + ord.next("range-callback")
+				var cb *ssa.Function
+				originIs(cl.Call.Args[1], func(v ssa.Value) bool {
+					switch x := v.(type) {
+					case *ssa.MakeClosure:
+						cb, _ = x.Fn.(*ssa.Function)
+					case *ssa.Function:
+						cb = x
+					}
+					return cb != nil
+				})
+				if cb == nil || cb.Blocks == nil {
+					c.Unknown("R15.15", key, p.Pos(cl.Pos()), fmt.Sprintf("%s: the callback handed to Range could not be resolved", fname(fn)))
+					return
+				}
+				bad := ""
+				ssax.Instrs(cb, func(ci ssa.Instruction) {
+					st, ok := ci.(*ssa.Store)
+					if !ok {
+						return
+					}
+					ia, ok := st.Addr.(*ssa.IndexAddr)
+					if !ok {
+						return
+					}
+					if _, isSlice := ia.X.Type().Underlying().(*types.Slice); !isSlice {
+						return
+					}
+					canon := func(v ssa.Value) (ssax.Term, bool) {
+						v = ssax.StripIntConv(v)
+						if k, ok := ssax.ConstInt(v); ok {
+							return ssax.Term{IsConst: true, Const: k}, true
+						}
+						if lc, ok := v.(*ssa.Call); ok {
+							if b, ok := lc.Call.Value.(*ssa.Builtin); ok && b.Name() == "len" && sameCellLoad(lc.Call.Args[0], ia.X) {
+								return ssax.Term{Sym: "LEN"}, true
+							}
+						}
+						if u, ok := v.(*ssa.UnOp); ok && u.Op == token.MUL {
+							return ssax.Term{Sym: "cell:" + u.X.Name()}, true
+						}
+						return ssax.Term{Sym: "v:" + v.Name()}, true
+					}
+					b := ssax.NewBounds(ssax.FactsAtInstr(st), canon)
+					t, _ := canon(ia.Index)
+					if !b.LE(t, ssax.Term{Sym: "LEN"}, -1) {
+						bad = p.Pos(st.Pos())
+					}
+				})
+				c.Check(bad == "", "R15.15", key, p.Pos(cl.Pos()), "the callback stores no slice element at an unguarded index",
+					fmt.Sprintf("%s: the Range callback writes a slice element at %s at an index no dominating comparison bounds by the slice's length: the map is read without the store mutex, so a slice sized by an earlier pass is too short when another goroutine added an entry in between (index out of range panic) and keeps empty names when one was removed", fname(fn), bad))
+			})
+		}
+	}
+}
+
+// sameCellLoad: a and b are loads of the same cell (or the same value).
+func sameCellLoad(a, b ssa.Value) bool {
+	if a == b {
+		return true
+	}
+	ua, ok1 := a.(*ssa.UnOp)
+	ub, ok2 := b.(*ssa.UnOp)
+	return ok1 && ok2 && ua.X == ub.X
 }
